@@ -381,3 +381,54 @@ def stress_corpus():
         ("wide_chars_before_error", "cmd 日本語 \"説明\" <UNDEFINED>;\n<UNUSED> = ü;\n".encode()),
     ]
     return items
+
+
+def shape_corpus():
+    """Unusual but plausible grammar shapes (name, text); whether each is accepted is learnt from the reference run."""
+    return [
+        ("empty_command", "cmd {{{ }}} x;\n"),
+        ("empty_command_in_word", "cmd --opt={{{ }}};\n"),
+        ("command_only", "cmd {{{ echo a }}};\n"),
+        ("two_commands_in_word", "cmd {{{ echo a }}}..{{{ echo b }}};\n"),
+        ("command_then_literal_in_word", "cmd {{{ echo a }}}=value;\n"),
+        ("ref_only_from_unused_def", "cmd x;\n<A> = <B> y;\n<B> = z;\n"),
+        ("fallback_under_many1", "cmd (a || b)...;\n"),
+        ("fallback_under_optional_many1", "cmd [a || b || c]... d;\n"),
+        ("nested_fallbacks", "cmd ((a || b) | c || d) e;\n"),
+        ("description_on_group_with_command", "cmd (a | {{{ echo b }}}) \"group descr\";\n"),
+        ("description_on_subword_group", "cmd --x=(a | b) \"descr\" | --y=<Z> \"other\";\n<Z> = p | q;\n"),
+        ("distributive_description_over_nonterm", "cmd <OPT> \"what\";\n<OPT> = -a | --all;\n"),
+        ("same_literal_two_descr_other_states", "cmd a x \"one\" | b x \"two\";\n"),
+        ("spec_only_no_plain", "cmd <U>;\n<U@bash> = {{{ a }}};\n<U@fish> = {{{ b }}};\n<U@zsh> = {{{ c }}};\n<U@pwsh> = {{{ d }}};\n"),
+        ("spec_for_other_shell_only", "cmd <U>;\n<U@fish> = {{{ b }}};\n"),
+        ("spec_and_plain_command", "cmd <U> --k=<U>;\n<U> = {{{ p }}};\n<U@zsh> = {{{ z }}};\n"),
+        ("spec_inside_word_through_def", "cmd <W>;\n<W> = ssh:<H>;\n<H> = {{{ p }}};\n<H@bash> = {{{ b }}};\n"),
+        ("cycle_through_spec", "cmd <A>;\n<A> = x <B>;\n<B@bash> = {{{ b }}};\n<B> = y [<A>];\n"),
+        ("path_redefined", "cmd <PATH> <DIRECTORY>;\n<PATH> = a | b;\n"),
+        ("path_in_word", "cmd --file=<PATH> --dir=<DIRECTORY>;\n"),
+        ("underscore_everywhere", "cmd <_> [<_>]... --x=<_>;\n"),
+        ("undefined_in_word_tail", "cmd --x=<UNDEF>;\n"),
+        ("optional_only", "cmd [a] [b] [c];\n"),
+        ("many1_of_optional", "cmd [a]... [b | c]...;\n"),
+        ("long_alternation_of_words", "cmd --o=(" + " | ".join("v%d" % i for i in range(70)) + ");\n"),
+        ("many_literals", "cmd " + " | ".join("lit%d" % i for i in range(130)) + ";\n"),
+        ("three_same_shape_words", "cmd --a=(x | y) | --b=(x | y) | --c=(x | y) | --d=(p | q | r);\n"),
+        ("same_word_twice", "cmd --a=(x | y) z | w --a=(x | y);\n"),
+        ("literal_prefix_chain_in_word", "cmd --o=(a | ab | abc | abcd) next;\n"),
+        ("dup_def_last_line_no_newline", "cmd <A>;\n<A> = x;\n<A> = y"),
+        ("unknown_shell_empty", "cmd <A>;\n<A@> = {{{ x }}};\n"),
+        ("unknown_shell_non_ascii", "cmd <A>;\n<A@b\xc3\xa4sh> = {{{ x }}};\n"),
+        ("call_variant_only_name", "cmd;\n"),
+        ("call_variant_name_with_dots", "a.b.c x;\n"),
+        ("two_variants_same_first_literal", "cmd sub a;\ncmd sub b;\ncmd sub [c]...;\n"),
+        ("escaped_specials", "cmd a\\|b \\(c\\) \\[d\\] \\<e\\> \\;f \\\"g \\{h\\} i\\\\j k\\.\\.\\.l;\n"),
+        ("descr_with_specials", "cmd a \"$x `y` \\\\ \\\" ! * ? ~ # & ; | < > ( ) [ ] { }\";\n"),
+        ("comment_inside_statement", "cmd a # comment\n   b # another ; with semicolon\n   | c;\n"),
+        ("formfeed_and_tabs", "cmd\ta\x0c\tb;\n"),
+        ("no_trailing_semicolon_many", "cmd a;\ncmd b;\n<X> = c"),
+        ("definition_before_use_and_after", "<A> = x;\ncmd <A> <B>;\n<B> = y <A>;\n"),
+        ("deep_definition_chain_in_word", "cmd --k=<A>;\n<A> = <B>;\n<B> = <C>;\n<C> = v1 | v2;\n"),
+        ("optional_tail_in_word", "cmd --color[=(always | never)];\n"),
+        ("many1_in_word", "cmd -s<P>:<S>[,<S>]...;\n<P> = TCP | UDP;\n<S> = [^](LISTEN | CLOSED);\n"),
+        ("strace_expr", "strace -e <EXPR>;\n<EXPR> = [<qualifier>=][!]<value>[,<value>]...;\n<qualifier> = trace | read | write | fault;\n<value> = %file | file | all;\n"),
+    ]
